@@ -143,3 +143,35 @@ Proof.
     + replace (zlen (x0 :: xr) <=? n) with true by lia. reflexivity.
     + replace (zlen (x0 :: xr) <=? n) with false by lia. reflexivity.
 Qed.
+
+(* an observed lossy block round trip (x compresses to c, c uncompresses into a destination of exactly |x| bytes to
+   y <> x) is incompatible with the contract: this is how the harness observation on the real library reads in Coq *)
+Theorem contract_refuted_by_lossy_witness
+    (cb ub : list Z -> Z -> result (list Z)) (bound : Z -> Z) (x c y : list Z) :
+  bytes_ok x -> x <> [] -> cb x (bound (zlen x)) = Ok c -> ub c (zlen x) = Ok y -> y <> x ->
+  ~ lz4_block_contract cb ub bound.
+Proof.
+  intros Hx Hne Hc Hu Hy Hcontract.
+  destruct (Hcontract x Hx) as (c' & Hc' & _ & _ & Hn). rewrite Hc in Hc'. injection Hc' as <-.
+  destruct (Hn Hne) as (_ & _ & _ & Hbig & _).
+  specialize (Hbig (zlen x) ltac:(lia)). rewrite Hu in Hbig. injection Hbig as E. exact (Hy E).
+Qed.
+
+(* ---------------------------------------------------------------- C04 support: the fuel of the doubling loop is never
+   exhausted for a non-empty input, whatever the block decoder answers (sizes 2n, 4n, .., 256n: at most 8 attempts) *)
+Theorem try_sizes_fuel_irrelevant (ub : list Z -> Z -> result (list Z)) (src : list Z) (k : nat) :
+  1 <= zlen src ->
+  try_sizes ub (9 + k) src (2 * zlen src) (256 * zlen src) = try_sizes ub 9 src (2 * zlen src) (256 * zlen src).
+Proof.
+  intro Hn. set (n := zlen src) in *.
+  change (9 + k)%nat with (S (S (S (S (S (S (S (S (S k))))))))). cbn [try_sizes].
+  repeat (match goal with |- context [?i <=? ?lim] =>
+            first [ replace (i <=? lim) with true by lia | replace (i <=? lim) with false by lia ] end;
+          try match goal with |- context [ub src ?i] => destruct (ub src i); [reflexivity|] end).
+  destruct k; reflexivity.
+Qed.
+
+(* every wrapper returns a value or an error for every input and every block decoder *)
+Theorem lz4_decompress_total (ub : list Z -> Z -> result (list Z)) (src : list Z) :
+  (exists d, lz4_decompress ub src = Ok d) \/ lz4_decompress ub src = Err.
+Proof. destruct (lz4_decompress ub src) as [d|]; [left; exists d; reflexivity | right; reflexivity]. Qed.
